@@ -1,12 +1,14 @@
-(* C12 -- property theorems only.  (a)-(c) are about kernels regenerated from /repo's TensorMath.py at T := R; (d) is the soundness
+(* C12 -- property theorems only.  (a)-(c'') are about kernels regenerated from /repo's TensorMath.py at T := R (round 3 added (b') the
+   first, trigonometric stage of eigen_sym33_non_unit, (c') the Taylor kernel's truncation error and (c'') the argsort-based kernels
+   wired into log_symm / pow_symm); (d) is the soundness
    of the executable result checkers (model/M_C12.v) that ./check runs with vm_compute on the exact rational values of the
    implementation's outputs.  The accuracy of eigen_sym33_unit, sqrtm_dbp, logm_iss for ALL inputs is NOT proved (approximate
    algorithms in binary64): each explored instance is certified by a verified checker instead -- partial. *)
 From Coq Require Import Reals QArith Qabs List.
 From OV.base Require Import Num.
 From OV.gen Require Import Gen_TensorMath Gen_TensorMathFun.
-From OV.model Require Import M_C08 M_C12.
-From OV.proofs Require Import L_C08 L_C12 L_C12_RD.
+From OV.model Require Import M_C08 M_C12 M_C12_Trig.
+From OV.proofs Require Import L_C08 L_C12 L_C12_RD L_C12_Trig.
 Import ListNotations.
 Notation M := (mat R).
 Local Open Scope R_scope.
@@ -30,6 +32,35 @@ Theorem C12_pade_bound : forall x, 0 <= x <= 1 -> Rabs (4 * pade x * pade x * pa
 Proof. exact pade_residual. Qed.
 Theorem C12_pade_range : forall x, 0 <= x <= 1 -> 866 / 1000 <= pade x <= 10000001 / 10000000.
 Proof. exact pade_range. Qed.
+(* (b') round 3 -- the closed-form trigonometric stage of eigen_sym33_non_unit.  stage A = (c1, c2, c3, rr, arg, eval2) is the PREFIX of the
+   routine's body (up to the assignment of eval2) regenerated from the source.  x^3 + c2 x + c3 is the characteristic polynomial of
+   the deviator of sym A and c1 its mean; when c2 < 0 and |rr| <= 1 (the clamp `minimum(abs(rr), 1)` inactive), eval2 -- computed with
+   the Pade kernel -- leaves a residual of at most 2e-13 (-c2/3)^(3/2) in that polynomial, and lies within 4e-14 sqrt(-c2/3) of an exact
+   root which has the largest magnitude of all roots: the deviatoric eigenvalue of largest magnitude (Pade error => eigenvalue error).
+   |rr| <= 1 follows from the polynomial having three real roots (discriminant identity). *)
+Theorem C12_trig_stage_invariants : forall A : M,
+  st_c1 A = mtrace A / 3 /\ forall x, charpoly (devsym A) x = cubic (st_c2 A) (st_c3 A) x.
+Proof. exact stage_invariants. Qed.
+Theorem C12_trig_root_residual : forall A : M, st_c2 A < 0 -> Rabs (st_rr A) <= 1 ->
+  Rabs (cubic (st_c2 A) (st_c3 A) (st_eval2 A))
+  <= 2 / 10000000000000 * (sqrt (- st_c2 A / 3) * sqrt (- st_c2 A / 3) * sqrt (- st_c2 A / 3)).
+Proof. exact trig_root_residual. Qed.
+Theorem C12_trig_root_error : forall A : M, st_c2 A < 0 -> Rabs (st_rr A) <= 1 ->
+  exists lstar, cubic (st_c2 A) (st_c3 A) lstar = 0
+    /\ Rabs (st_eval2 A - lstar) <= 4 / 100000000000000 * sqrt (- st_c2 A / 3)
+    /\ (forall mu, cubic (st_c2 A) (st_c3 A) mu = 0 -> Rabs mu <= Rabs lstar).
+Proof. exact trig_root_error. Qed.
+Theorem C12_trig_argument_bounded : forall c2 c3 l1 l2 l3 : R, c2 < 0 ->
+  (forall x, cubic c2 c3 x = (x - l1) * (x - l2) * (x - l3)) ->
+  Rabs (- (1 / 2) * c3 * (3 / - c2) * sqrt (3 / - c2)) <= 1.
+Proof. exact rr_bounded_of_real_roots. Qed.
+Example C12_trig_nonvacuous : st_c1 Aex = 4 /\ st_c2 Aex = -7 /\ st_c3 Aex = -6 /\ st_c2 Aex < 0 /\ Rabs (st_rr Aex) <= 1
+  /\ cubic (st_c2 Aex) (st_c3 Aex) 3 = 0 /\ Rabs (st_eval2 Aex - 3) <= 1 / 10000000000000.
+Proof. exact trig_nonvacuous. Qed.
+(* NOT PROVED: that a real symmetric tensor has three real eigenvalues (the spectral theorem; it is the hypothesis of
+   C12_trig_argument_bounded); the two remaining eigenvalues, which the routine does NOT obtain from the trigonometric formula but
+   from a pivoted deflation and a 2x2 Wilkinson shift; the eigenvectors; the final argsort (ascending order is certified per instance
+   by check_eig); binary64 rounding of the stage. *)
 (* (c) the cancellation-free relative differences of the derivative rules are the divided differences (Daleckii-Krein) *)
 Theorem C12_sqrt_relative_difference : forall l1 l2, 0 < l1 -> 0 < l2 -> l1 <> l2 ->
   @_sqrt_relative_difference R NumR l1 l2 = (sqrt l1 - sqrt l2) / (l1 - l2).
@@ -95,8 +126,9 @@ Theorem C12_checker_sound_inverse_derivative : forall A L D tol, check_inverse_j
   Forall2 (Forall2 (entry_close tol)) (mmulQ (mmulQ A L) A) (mscalQ (-1) D).
 Proof. exact check_inverse_jvp_sound. Qed.
 (* NOT PROVED (partial): "for every symmetric 3x3 tensor the decomposition reconstructs the tensor ..." -- only per explored
-   instance through the checkers above; the derivative rules of exp/log/general powers are compared with central differences
-   of the implementation (a test, not a proof). *)
+   instance through the checkers above; the derivative rules of sqrt/log/exp/pow_symm are compared per instance with the closed-form
+   Daleckii-Krein derivative (divided differences in 60-digit arithmetic; the comparison itself runs through check_prod) and with
+   central differences of the implementation (tests, not proofs). *)
 Example C12_nonvacuous : check_eig [[2; 0; 0]; [0; 3; 0]; [0; 0; 5]] [2; 3; 5] (identQ 3) 0 = true
   /\ check_eig [[2; 1; 0]; [1; 3; 0]; [0; 0; 5]] [2; 3; 5] (identQ 3) (1 # 10) = false.
 Proof. split; [exact check_eig_accepts | exact check_eig_rejects]. Qed.
@@ -104,6 +136,7 @@ Proof. split; [exact check_eig_accepts | exact check_eig_rejects]. Qed.
 Print Assumptions C12_pade_bound.
 Print Assumptions C12_log_taylor_truncation.
 Print Assumptions C12_pow_relative_difference_argsort.
+Print Assumptions C12_trig_root_error.
 Print Assumptions C12_inv_right.
 Print Assumptions C12_sqrt_relative_difference.
 Print Assumptions C12_checker_sound_eig.
